@@ -1,0 +1,108 @@
+// Copyright 2019 The Gaea Authors. All Rights Reserved.
+//
+// Licensed under the Apache License, Version 2.0 (the "License");
+// you may not use this file except in compliance with the License.
+// You may obtain a copy of the License at
+//
+//     http://www.apache.org/licenses/LICENSE-2.0
+//
+// Unless required by applicable law or agreed to in writing, software
+// distributed under the License is distributed on an "AS IS" BASIS,
+// WITHOUT WARRANTIES OR CONDITIONS OF ANY KIND, either express or implied.
+// See the License for the specific language governing permissions and
+// limitations under the License.
+
+package plan
+
+import (
+	"io"
+
+	"github.com/XiaoMi/Gaea/parser/ast"
+	"github.com/XiaoMi/Gaea/parser/format"
+	"github.com/XiaoMi/Gaea/parser/types"
+	"github.com/XiaoMi/Gaea/proxy/router"
+)
+
+// type check
+var _ ast.ExprNode = &WildCardFieldDecorator{}
+
+// WildCardFieldDecorator decorate the select field `tbl.*` / `db.tbl.*` to rewrite its database and table name
+// like those of a column name. SelectField.WildCard has a concrete type, so the decorator takes the place of
+// SelectField.Expr and the WildCard of the field is removed.
+type WildCardFieldDecorator struct {
+	origin     *ast.WildCardField
+	qualifiers *ColumnNameDecorator
+}
+
+// NeedCreateWildCardFieldDecorator check if a wildcard field needs decoration: `*` does not, `tbl.*` and
+// `db.tbl.*` are looked up like a column of that table
+func NeedCreateWildCardFieldDecorator(p *TableAliasStmtInfo, n *ast.WildCardField) (router.Rule, bool, bool, error) {
+	if n.Schema.O == "" && n.Table.O == "" {
+		return nil, false, false, nil
+	}
+	return needCreateColumnNameDecorator(p, &ast.ColumnName{Schema: n.Schema, Table: n.Table})
+}
+
+// CreateWildCardFieldDecorator create WildCardFieldDecorator
+func CreateWildCardFieldDecorator(n *ast.WildCardField, rule router.Rule, isAlias bool, result *RouteResult) *WildCardFieldDecorator {
+	return &WildCardFieldDecorator{
+		origin:     n,
+		qualifiers: createColumnNameDecorator(&ast.ColumnName{Schema: n.Schema, Table: n.Table}, rule, isAlias, result),
+	}
+}
+
+// isWildCardField tells whether a select field is a wildcard, decorated or not
+func isWildCardField(f *ast.SelectField) bool {
+	if f.WildCard != nil {
+		return true
+	}
+	_, ok := f.Expr.(*WildCardFieldDecorator)
+	return ok
+}
+
+// Restore implement ast.Node
+func (w *WildCardFieldDecorator) Restore(ctx *format.RestoreCtx) error {
+	if err := w.qualifiers.restoreQualifiers(ctx); err != nil {
+		return err
+	}
+	ctx.WritePlain("*")
+	return nil
+}
+
+// Accept implement ast.Node
+// do nothing and return current decorator
+func (w *WildCardFieldDecorator) Accept(v ast.Visitor) (ast.Node, bool) {
+	return w, true
+}
+
+// Text implement ast.Node
+func (w *WildCardFieldDecorator) Text() string {
+	return w.origin.Text()
+}
+
+// SetText implement ast.Node
+func (w *WildCardFieldDecorator) SetText(text string) {
+	w.origin.SetText(text)
+}
+
+// SetType implement ast.ExprNode
+func (w *WildCardFieldDecorator) SetType(tp *types.FieldType) {
+}
+
+// GetType implement ast.ExprNode
+func (w *WildCardFieldDecorator) GetType() *types.FieldType {
+	return nil
+}
+
+// SetFlag implement ast.ExprNode
+func (w *WildCardFieldDecorator) SetFlag(flag uint64) {
+}
+
+// GetFlag implement ast.ExprNode
+func (w *WildCardFieldDecorator) GetFlag() uint64 {
+	return 0
+}
+
+// Format implement ast.ExprNode
+func (w *WildCardFieldDecorator) Format(wr io.Writer) {
+}
